@@ -298,13 +298,26 @@ func httpEntry(e *venum.E, a *vh.Args) {
 	}
 	long, _ := proto.Marshal(&pb.C2SWrapper{SharedSecret: bytes.Repeat([]byte{1}, 32)})
 	bodies = append(bodies, long)
+	// well-formed registrations for each combination of the address-family flags (the registrar branches on them)
+	for _, fam := range [][2]bool{{true, true}, {true, false}, {false, true}, {false, false}} {
+		for _, tt := range []pb.TransportType{pb.TransportType_Min, pb.TransportType_Prefix} {
+			b, _ := proto.Marshal(vfix.Msg{Secret: vfix.Secret(21), Transport: tt, V4: fam[0], V6: fam[1], Gen: 1, LibVer: 4, Covert: "93.184.216.34:443"}.Wrapper())
+			bodies = append(bodies, b)
+		}
+	}
 	idx := 0
-	for _, gen := range []uint32{0, 5} {
+	// registrar configurations: no ClientConf to hand out / one to hand out / the same with subnet overrides enforced
+	// (as in the shipped reg_config.toml)
+	procOv := regprocessor.VerifNewProcessorOverrides(sel)
+	for ci, gen := range []uint32{0, 5, 5} {
 		var cc *pb.ClientConf
 		if gen > 0 {
 			cc = &pb.ClientConf{Generation: proto.Uint32(gen)}
 		}
 		srv := apiregserver.VerifServer(proc, cc)
+		if ci == 2 {
+			srv = apiregserver.VerifServer(procOv, cc)
+		}
 		for _, method := range []string{"GET", "POST", "PUT"} {
 			for bi, body := range bodies {
 				for _, cl := range []string{"real", "absent", "0", "32", "33", "lying"} {
@@ -323,7 +336,7 @@ func httpEntry(e *venum.E, a *vh.Args) {
 								if !e.Case() {
 									return
 								}
-								id := fmt.Sprintf("handler=%d;gen=%d;method=%s;body=%d;cl=%s;xff=%q;remote=%q", hi, gen, method, bi, cl, xff, ra)
+								id := fmt.Sprintf("handler=%d;gen=%d;overrides=%v;method=%s;body=%d;cl=%s;xff=%q;remote=%q", hi, gen, ci == 2, method, bi, cl, xff, ra)
 								req, _ := http.NewRequest(method, "http://registrar/register", bytes.NewReader(body))
 								switch cl {
 								case "absent":
